@@ -1,4 +1,5 @@
 import Anything.Lemmas.DisplayValue
+import Anything.Generated.Knobs
 /-!
 # C08 — printed decimals are faithful and never silently truncated
 
@@ -151,5 +152,12 @@ example : (readBack ['0', '.', '1', '2', '…']).map (faithful (mkRat 1 8)) = so
 /-- The `limit = 0` finding is about a real case: `1/3` with no digit budget. -/
 example : fmt { limit := 0 } (mkRat 1 3) = ['…', 'e', '-', '1'] := by
   decide +kernel
+
+
+/-- **C08 (the default display specification of the source is the model's).** -/
+theorem C08_default_spec :
+    ({} : Display.Spec).limit = Anything.Generated.Knobs.defaultLimit ∧
+    ({} : Display.Spec).exponentLimit = Anything.Generated.Knobs.defaultExponentLimit ∧
+    ({} : Display.Spec).showContinuation = Anything.Generated.Knobs.defaultShowContinuation := by decide
 
 end Anything.Props.C08
